@@ -6,6 +6,7 @@ import IbcVerif.Util.J
 import IbcVerif.Driver.Height
 import IbcVerif.Driver.Commit
 import IbcVerif.Driver.Keys
+import IbcVerif.Driver.Ident
 open Lean
 namespace IbcVerif.Driver.Pure
 open IbcVerif.J
@@ -14,6 +15,7 @@ def handlers : List (String → Json → Option (Except String Json)) :=
   [ IbcVerif.Driver.Height.handle
   , IbcVerif.Driver.Commit.handle
   , IbcVerif.Driver.Keys.handle
+  , IbcVerif.Driver.Ident.handle
   ]
 
 def handle (f : String) (j : Json) : Except String Json :=
